@@ -42,7 +42,7 @@ def strategy(tier):
     def base(exotic):
         return gen.wellformed(max_targets=10 if big else 6, max_files=14 if big else 9,
                               wds=WDS + (("lnk",) if exotic else ()), dirs=DIRS, nb=3,
-                              spellings=(0, 1, 2, 3, 4, 5, 6, 7),
+                              spellings=(0, 1, 2, 3, 4, 5, 6, 7, 8, 9),
                               shapes=tuple(range(12)) if exotic else tuple(range(11)), min_targets=2)
 
     @st.composite
